@@ -5,12 +5,13 @@ use crate::model::*;
 use customasm::util::BigInt;
 use customasm::*;
 
-// result of the stubbed evaluator
-pub static mut EV_KIND: u8 = 0; // 0 Integer, 1 Unknown, 2 FailedConstraint, 3 Err (+error), 4 Bool
-pub static mut EV_VAL: i64 = 0;
-pub static mut EV_SIZE: Option<usize> = None;
-pub static mut EV_CALLS: usize = 0;
-pub static mut EV_SAW_GUESS: bool = false;
+// state of the stubbed evaluator (struct with a magic word: see model.rs)
+pub struct EvalModel {
+    pub magic: u64,
+    pub calls: usize,
+    pub pre: Option<expr::Value>,
+}
+pub static mut EV: EvalModel = EvalModel { magic: 0x4556_5eed_c0de_0003, calls: 0, pre: None };
 
 /// Contract stub for asm::resolver::eval::eval: hands out the value the harness prepared
 /// (`pre_*`), or - when nothing was prepared - records an error and returns Err.
@@ -20,11 +21,10 @@ pub static mut EV_SAW_GUESS: bool = false;
 /// selector, yields enum values whose empty `Vec`s read back with capacity 1, which
 /// shows up as spurious `__rust_dealloc` failures that also cut the path. So every
 /// harness fixes the result kind and builds the value in its own body.
-pub static mut PRE: Option<expr::Value> = None;
 pub fn st_eval_pre(report: &mut diagn::Report, _opts: &asm::AssemblyOptions, _fs: &mut dyn util::FileServer, _decls: &asm::ItemDecls, _defs: &asm::ItemDefs, _ctx: &asm::ResolverContext, _ectx: &mut expr::EvalContext, _e: &expr::Expr) -> Result<expr::Value, ()> {
     unsafe {
-        EV_CALLS += 1;
-        match PRE.take() {
+        EV.calls += 1;
+        match EV.pre.take() {
             Some(v) => Ok(v),
             None => {
                 report.error("eval failed");
@@ -34,27 +34,22 @@ pub fn st_eval_pre(report: &mut diagn::Report, _opts: &asm::AssemblyOptions, _fs
     }
 }
 pub fn pre_int(v: i64, size: Option<usize>) {
-    unsafe { PRE = Some(expr::Value::make_integer(BigInt::new(v, size))); }
+    unsafe { EV.pre = Some(expr::Value::make_integer(BigInt::new(v, size))); }
 }
 pub fn pre_unknown() {
-    unsafe { PRE = Some(expr::Value::Unknown); }
+    unsafe { EV.pre = Some(expr::Value::Unknown); }
 }
 pub fn pre_failed() {
-    unsafe { PRE = Some(expr::Value::FailedConstraint(diagn::Message::error("constraint"))); }
+    unsafe { EV.pre = Some(expr::Value::FailedConstraint(diagn::Message::error("constraint"))); }
 }
 pub fn pre_bool(b: bool) {
-    unsafe { PRE = Some(expr::Value::Bool(b)); }
+    unsafe { EV.pre = Some(expr::Value::Bool(b)); }
 }
 pub fn pre_err() {
-    unsafe { PRE = None; }
+    unsafe { EV.pre = None; }
 }
-pub fn set_eval(kind: u8, val: i64, size: Option<usize>) {
-    unsafe {
-        EV_KIND = kind;
-        EV_VAL = val;
-        EV_SIZE = size;
-        EV_CALLS = 0;
-    }
+pub fn set_eval(_kind: u8, _val: i64, _size: Option<usize>) {
+    unsafe { EV.calls = 0; }
 }
 
 /// Attaches the evaluator stub and the slice contract on top of the Report model.
